@@ -1,6 +1,7 @@
 import AdaptiveProofs.Lemmas.L1DBounds
 import AdaptiveProofs.Lemmas.Greedy
 import AdaptiveProofs.Lemmas.L1DGreedy
+import AdaptiveProofs.Lemmas.L1DFinal
 
 /-!
 # C02 — Learner1D.ask places new points where they most reduce the worst loss
@@ -116,5 +117,21 @@ theorem c02_allocation_optimal (hr : Monotone r12) {lo hi : α} (hlt : lo < hi) 
   have hpos : 0 < s.scaleX := by rw [hb.scaleX]; exact sub_pos.2 hb.lt
   exact ask_greedy_optimal r12 hr s n hI hd hb.xsC_in hts (hb.lossScale.trans hb.scaleX.symm) hpos hw
     hne a ha hsum M hM
+
+/-- C02.h  Allocation optimality with every side condition discharged: for every NON-NEGATIVE loss function and
+every monotone rounding, in every state reachable by a valid history that holds at least one point, no other way
+of distributing the same number of points over the candidate intervals has a smaller largest rounded expected
+loss per part than the allocation `ask` computes. -/
+theorem c02_allocation_optimal_nonneg (hnn : NonNegLoss lossFn) (hr : Monotone r12) {lo hi : α} (hlt : lo < hi)
+    (factor dxEps : α) (nn : Nat) (ops : List (Op α))
+    (hv : ValidOps lossFn r12 (init lo hi factor dxEps nn) ops) (n : Nat) :
+    let s := run lossFn r12 (init lo hi factor dxEps nn) ops
+    s.data.length + s.pending.length ≠ 0 →
+    ∀ (a : Cand s → ℕ), (∀ i, 1 ≤ a i) →
+      (∑ i, a i = ∑ i : Cand s, gOf (askQuals r12 s n) i.1) →
+      ∀ M, (∀ i : Cand s, r12 (wOf s i.1 / (a i : α)) ≤ M) →
+        ∀ i : Cand s, r12 (wOf s i.1 / (gOf (askQuals r12 s n) i.1 : α)) ≤ M := by
+  intro s hd a ha hsum M hM
+  exact ask_optimal_run lossFn r12 hnn hr hlt factor dxEps nn ops hv s rfl n hd a ha hsum M hM
 
 end L1D
